@@ -499,6 +499,110 @@ func placeCBOR(raw []byte, desc string) []c06Placed {
 	return r
 }
 
+// wrapAroundLengths: heads whose declared length, converted to a signed or
+// narrower integer or added to an offset, wraps around (2^64-k, 2^63+-k,
+// 2^32-k, 2^31+-k), as value / key / element of definite and
+// INDEFINITE-length containers with a few bytes and a break after them.
+func wrapAroundLengths() []c06Placed {
+	var lens []struct {
+		ai  int
+		val uint64
+	}
+	add := func(ai int, v uint64) {
+		lens = append(lens, struct {
+			ai  int
+			val uint64
+		}{ai, v})
+	}
+	for k := uint64(1); k <= 16; k++ {
+		add(27, -k) // 2^64 - k
+	}
+	for _, k := range []uint64{24, 25, 32, 33, 64, 255, 256, 4096} {
+		add(27, -k)
+	}
+	for _, v := range []uint64{1<<63 - 1, 1 << 63, 1<<63 + 1, 1<<63 + 9, 1<<32 - 1, 1 << 32, 1<<32 + 1, 1<<31 - 1, 1 << 31} {
+		add(27, v)
+	}
+	for _, v := range []uint64{1<<32 - 1, 1<<32 - 2, 1<<32 - 9, 1<<31 - 1, 1 << 31, 1<<31 + 1} {
+		add(26, v)
+	}
+	var r []c06Placed
+	for major := 2; major <= 5; major++ {
+		for _, l := range lens {
+			head := append([]byte{byte(major<<5 | l.ai)}, beUint(l.val, 1<<(l.ai-24))...)
+			desc := fmt.Sprintf("major%d/declared=%d", major, l.val)
+			forms := map[string][]byte{
+				"indef-map-value":  append(append([]byte{0xbf, 0x00}, head...), 0xff),
+				"indef-map-value+": append(append([]byte{0xbf, 0x00}, head...), 0x00, 0x00, 0x00, 0x00, 0x00, 0x00, 0x00, 0x00, 0xff),
+				"indef-map-key":    append(append([]byte{0xbf}, head...), 0x00, 0xff),
+				"indef-map-2nd":    append(append([]byte{0xbf, 0x00, 0x00, 0x01}, head...), 0xff),
+				"indef-array":      append(append([]byte{0x9f}, head...), 0xff),
+				"map-value":        append([]byte{0xa1, 0x00}, head...),
+				"map-2nd-value":    append(append([]byte{0xa2, 0x00, 0x00, 0x01}, head...), 0x00, 0x00),
+				"tagged-indef-map": append(append([]byte{0xc6, 0xbf, 0x01}, head...), 0xff),
+				"indef-bstr-chunk": append(append([]byte{0x5f}, head...), 0xff),
+			}
+			for name, b := range forms {
+				d := name + "/" + desc
+				r = append(r, c06Placed{"enc-cbor", d, b}, c06Placed{"cbor", d, b})
+				if major == 2 && l.ai == 27 {
+					r = append(r, c06Placed{"cose", "payload/" + d, icbor.Encode(c05Envelope(b))})
+				}
+			}
+		}
+	}
+	return r
+}
+
+// memberPairDocs: claims documents in which two top-level members are changed
+// at once - one to null / an empty container, one to a value of a wrong type
+// (a decode that fails in one member after another one was reset must still
+// terminate).
+func memberPairDocs() []c06Placed {
+	var r []c06Placed
+	for _, base := range c05JSONBases() {
+		root, err := parseJN(base.doc)
+		if err != nil || root.kind != 'o' || !(strings.HasPrefix(base.name, "p1") || strings.HasPrefix(base.name, "p2")) {
+			continue
+		}
+		for i := range root.keys {
+			for j := range root.keys {
+				if i == j {
+					continue
+				}
+				for ai, a := range []*jn{jNull(), jArr(), jRaw("{}")} {
+					for bi, b := range []*jn{jStr("x"), jNum("1099511627776"), jRaw("true")} {
+						c := root.clone()
+						c.vals[i], c.vals[j] = a.clone(), b.clone()
+						r = append(r, c06Placed{"json", fmt.Sprintf("%s/%s=#%d,%s=#%d", base.name, root.keys[i], ai, root.keys[j], bi), []byte(c.String())})
+					}
+				}
+			}
+		}
+	}
+	for _, base := range c05CBORBases() {
+		if !(strings.HasPrefix(base.name, "p1") || strings.HasPrefix(base.name, "p2")) {
+			continue
+		}
+		n := len(base.node.Pairs)
+		for i := 0; i < n; i++ {
+			for j := 0; j < n; j++ {
+				if i == j {
+					continue
+				}
+				for ai, a := range []*icbor.Node{icbor.Null(), icbor.Arr()} {
+					for bi, b := range []*icbor.Node{icbor.Tstr("x"), icbor.U(1 << 40)} {
+						c := base.node.Clone()
+						c.Pairs[i][1], c.Pairs[j][1] = a.Clone(), b.Clone()
+						r = append(r, c06Placed{"cbor", fmt.Sprintf("%s/pair%d=#%d,%d=#%d", base.name, i, ai, j, bi), icbor.Encode(c)})
+					}
+				}
+			}
+		}
+	}
+	return r
+}
+
 func nestings() []c06Placed {
 	var r []c06Placed
 	rep := func(unit []byte, d int, tail []byte) []byte {
@@ -820,9 +924,9 @@ func c06Report(t testing.TB, pl *c06Pool, v string, in c06In) {
 }
 
 func TestC06_Bombs(t *testing.T) {
-	st := NewStats("C06", "TestC06_Bombs", "enumeration, measured in an address-space-limited single-goroutine worker process (TotalAlloc delta and wall time per input): header bombs = every major type 2..6 x additional-info 24..27 x declared length in {0x80,0xff,2^8,2^16-1,2^16,2^24,2^31,2^32-1,2^32,2^63,2^64-1} x 0..16 following bytes, placed at top level and at every structural position of a valid token of both profiles (5 claim values, a component field, an unknown key's value, COSE payload / protected / unprotected / signature / tag content / protected-header content / unprotected-header value); nesting of arrays, maps, tags, indefinite containers to depth 8..32000 and JSON arrays/objects to depth 8..65536 (closed and unclosed, top level and inside claims); 4 KiB..60 KiB strings, 1000..16000-key maps (distinct and duplicate keys), 700-component and 60000-null component lists; every 1- and 2-byte input that starts with a tag head and valid documents wrapped 1..3 deep in 42 tag numbers of every head width (termination of the hand-written tag skipping). Every input goes to every entry point of its family (COSE, claims CBOR incl. per-type unmarshal and extension types, claims JSON, populate helpers). Violation: a call allocates more than 1 MiB + 1 KiB per input byte, or takes > 5 s (re-measured in 3 fresh processes), or the worker dies with an out-of-memory fatal error. Non-trivial = declares more data than it carries, or nests >= 8 deep, or >= 4 KiB; distinct = family + input")
+	st := NewStats("C06", "TestC06_Bombs", "enumeration, measured in an address-space-limited single-goroutine worker process (TotalAlloc delta and wall time per input): header bombs = every major type 2..6 x additional-info 24..27 x declared length in {0x80,0xff,2^8,2^16-1,2^16,2^24,2^31,2^32-1,2^32,2^63,2^64-1} x 0..16 following bytes, placed at top level and at every structural position of a valid token of both profiles (5 claim values, a component field, an unknown key's value, COSE payload / protected / unprotected / signature / tag content / protected-header content / unprotected-header value); declared lengths that wrap around when converted or added (2^64-k for k=1..16 and others, 2^63+-k, 2^32-k, 2^31+-k) as value / key / element of definite and indefinite-length containers; claims documents with two members changed at once (one null / empty, one of a wrong type); nesting of arrays, maps, tags, indefinite containers to depth 8..32000 and JSON arrays/objects to depth 8..65536 (closed and unclosed, top level and inside claims); 4 KiB..60 KiB strings, 1000..16000-key maps (distinct and duplicate keys), 700-component and 60000-null component lists; every 1- and 2-byte input that starts with a tag head and valid documents wrapped 1..3 deep in 42 tag numbers of every head width (termination of the hand-written tag skipping). Every input goes to every entry point of its family (COSE, claims CBOR incl. per-type unmarshal and extension types, claims JSON, populate helpers). Violation: a call allocates more than 1 MiB + 1 KiB per input byte, or takes > 5 s (re-measured in 3 fresh processes), or the worker dies with an out-of-memory fatal error. Non-trivial = declares more data than it carries, or nests >= 8 deep, or >= 4 KiB; distinct = family + input")
 	st.Exhaustive = true
-	st.Require = []string{"bomb", "nesting", "big", "tag-wrapped", "error-path", "family=cbor", "family=cose", "family=json", "family=enc-cbor", "family=enc-json"}
+	st.Require = []string{"bomb", "wrap-around", "member-pair", "nesting", "big", "tag-wrapped", "error-path", "family=cbor", "family=cose", "family=json", "family=enc-cbor", "family=enc-json"}
 	defer st.Flush(t)
 	pl := &c06Pool{}
 	defer pl.drop()
@@ -841,6 +945,12 @@ func TestC06_Bombs(t *testing.T) {
 		for _, p := range placeCBOR(b.raw, b.desc) {
 			run(p, "bomb")
 		}
+	}
+	for _, p := range wrapAroundLengths() {
+		run(p, "wrap-around")
+	}
+	for _, p := range memberPairDocs() {
+		run(p, "member-pair")
 	}
 	for _, p := range nestings() {
 		run(p, "nesting")
